@@ -20,7 +20,7 @@ const (
 
 // NewWorld prepares the world of a plan.
 func NewWorld(p *Plan) *World {
-	w := &World{P: p, Probes: map[string]int{}, Arrivals: map[int][]uint64{}, byID: map[uint64]*CallRec{}, opIdx: map[int]int{}}
+	w := &World{P: p, Probes: map[string]int{}, Arrivals: map[int][]uint64{}, byID: map[uint64]*CallRec{}, opIdx: map[int]int{}, PuppetFlags: map[uint64]uint32{}}
 	w.Net = NewNet(p.Net)
 	currentNet = w.Net
 	w.Servers = make([]*rpc.Server, len(p.Servers))
@@ -38,6 +38,13 @@ func NewWorld(p *Plan) *World {
 func (w *World) RunConnWorld() {
 	p := w.P
 	for i := range p.Servers {
+		if i == 0 && p.Params["puppet_server"] == 1 {
+			simrt.Go("harness.puppet.listen", func() { w.runPuppetServer(addrOf(0), p.Replies, p.Params["close_after"]) })
+			for n := 0; n < 10000 && w.Net.listeners[addrOf(0)] == nil; n++ {
+				simrt.Gosched()
+			}
+			continue
+		}
 		w.startServer(i)
 	}
 	// faults armed at connect time
@@ -75,7 +82,17 @@ func (w *World) RunConnWorld() {
 		w.Conns[i] = conn
 		w.ConnPipe[i] = w.Net.Pipes[len(w.Net.Pipes)-1]
 	}
-	w.active = len(p.Clients)
+	w.active = len(p.Clients) + len(p.Puppets)
+	for pi := range p.Puppets {
+		pi := pi
+		simrt.Go(fmt.Sprintf("harness.puppet.%d", pi), func() {
+			defer func() {
+				w.active--
+				w.joinQ.WakeAll()
+			}()
+			w.runPuppetClient(100+pi, p.Puppets[pi])
+		})
+	}
 	for ci := range p.Clients {
 		ci := ci
 		simrt.Go(fmt.Sprintf("harness.client.%d", ci), func() {
@@ -119,6 +136,9 @@ func (w *World) teardown() {
 		if s != nil && w.ServerUp[i] {
 			s.Close()
 		}
+	}
+	if w.PuppetLis != nil {
+		w.PuppetLis.Kill()
 	}
 	simrt.Sleep(quietGrace)
 	w.collectSignals()
